@@ -74,6 +74,16 @@ def iter (step : Nat → Vec → Vec) : (i k : Nat) → Vec → Vec
   | _, 0, y => y
   | i, k+1, y => iter step (i+1) k (step i y)
 
+/-! ### the jax backend's fixed-step scheme (`JaxBackend._solve_euler/_solve_heun`): an outer `lax.scan` of `store_steps`
+iterations, each emitting the state it starts from and then running an inner scan of `store_step` steps -/
+
+def scanOuter (step : Nat → Vec → Vec) (storeStep : Nat) : (n : Nat) → (t : Nat) → (y : Vec) → List Vec
+  | 0, _, _ => []
+  | n + 1, t, y => y :: scanOuter step storeStep n (t + storeStep) (iter step t storeStep y)
+
+def scanSolve (step : Nat → Vec → Vec) (storeSteps storeStep : Nat) (y0 : Vec) : List Vec :=
+  scanOuter step storeStep storeSteps 0 y0
+
 /-! ### time axis -/
 
 /-- Python's `round` / `np.round`: half to even -/
@@ -105,6 +115,16 @@ structure RunCfg where
   dt : Rat
   dts : Rat
   cutoff : Rat
+
+/-- the same pipeline with the jax scheme (never raises: the scan lengths are fixed up front) -/
+def runScan (kind : AxisKind) (step : Rat → Nat → Vec → Vec) (c : RunCfg) (y0 : Vec) : Except Err (List (Rat × Option Vec)) := do
+  if c.dt = 0 ∨ c.dts = 0 then throw .zeroDivision
+  let storeSteps := (pyRound (c.T / c.dts)).toNat
+  let storeStep := (pyRound (c.dts / c.dt)).toNat
+  let rows := (scanSolve (step c.dt) storeSteps storeStep y0).map some
+  let times := timeAxis kind c.T c.dts
+  if times.length ≠ rows.length then throw .lengthMismatch
+  pure ((times.zip rows).filter (fun r => c.cutoff ≤ r.1))
 
 /-- fixed-step part of `CircuitTemplate.run` for all state variables: integrate, attach the time index, apply the cutoff.
 A stored row that was never written (`none`) is garbage memory. -/
